@@ -1,5 +1,5 @@
 /-
-  Proofs/FaultLemmasE2.lean — running actions without a fault: `runActs … none` performs the actions with `applyF`,
+  Proofs/FaultLemmasE2.lean — running actions under a plan without a fault: `runActs` performs the actions with `applyF`,
   which is `Disk.apply` except on a write over a leftover batch; `Clean` disks (nothing beyond any writer's offset) stay
   clean under everything but a write, and under a write followed by the fsync of the same file.
 -/
@@ -90,20 +90,54 @@ theorem foldl_applyF_nowrite (d : Disk) {as : List Act} (h : NoWrite as) : as.fo
     simp only [List.foldl_cons, applyAll_cons]
     rw [applyF_of_not_write d (h a (by simp)), ih _ (fun b hb => h b (by simp [hb]))]
 
-theorem runActs_none (d : Disk) (wf : WriteFail) (as : List Act) :
-    runActs d wf as none = (as.foldl applyF d, none, none) := by
-  induction as generalizing d with
-  | nil => rfl
-  | cons a as ih => simp only [runActs, List.foldl_cons]; exact ih _
+/-- a fault plan without a fault (in particular the empty plan) -/
+def AllNone (pl : Plan) : Prop := pl.all (·.isNone) = true
 
-theorem runActs_none_nowrite (d : Disk) (wf : WriteFail) {as : List Act} (h : NoWrite as) :
-    runActs d wf as none = (d.applyAll as, none, none) := by
-  rw [runActs_none, foldl_applyF_nowrite d h]
+theorem AllNone.nil : AllNone [] := rfl
+
+theorem AllNone.tail {o : Option WriteFail} {pl : Plan} (h : AllNone (o :: pl)) : AllNone pl := by
+  unfold AllNone at *
+  simp only [List.all_cons, Bool.and_eq_true] at h
+  exact h.2
+
+theorem AllNone.head {o : Option WriteFail} {pl : Plan} (h : AllNone (o :: pl)) : o = none := by
+  unfold AllNone at h
+  simp only [List.all_cons, Bool.and_eq_true] at h
+  cases o with
+  | none => rfl
+  | some _ => exact absurd h.1 (by simp)
+
+theorem AllNone.drop {pl : Plan} (h : AllNone pl) (n : Nat) : AllNone (pl.drop n) := by
+  unfold AllNone at *
+  rw [List.all_eq_true] at *
+  intro x hx
+  exact h x (List.mem_of_mem_drop hx)
+
+/-- under a plan without a fault the actions are all performed; what is left of the plan is again without a fault -/
+theorem runActs_none (d : Disk) (as : List Act) {pl : Plan} (h : AllNone pl) :
+    runActs d as pl = (as.foldl applyF d, none, pl.drop as.length) := by
+  induction as generalizing d pl with
+  | nil => rfl
+  | cons a as ih =>
+    cases pl with
+    | nil =>
+      simp only [runActs, List.foldl_cons, List.drop_nil]
+      rw [ih _ AllNone.nil, List.drop_nil]
+    | cons o pl =>
+      have := h.head
+      subst this
+      simp only [runActs, List.foldl_cons, List.length_cons, List.drop_succ_cons]
+      exact ih _ h.tail
+
+theorem runActs_none_nowrite (d : Disk) {as : List Act} (hn : NoWrite as) {pl : Plan} (h : AllNone pl) :
+    runActs d as pl = (d.applyAll as, none, pl.drop as.length) := by
+  rw [runActs_none d as h, foldl_applyF_nowrite d hn]
 
 /-- the append of a call: the first write to the tail in the call, then its fsync -/
-theorem runActs_none_append {d : Disk} (hc : Clean d) (wf : WriteFail) (id : Nat) (es : List Entry) (sl : Bool) :
-    runActs d wf [.write id es sl, .fsync id] none = (d.applyAll [.write id es sl, .fsync id], none, none) := by
-  rw [runActs_none]
+theorem runActs_none_append {d : Disk} (hc : Clean d) (id : Nat) (es : List Entry) (sl : Bool) {pl : Plan}
+    (h : AllNone pl) :
+    runActs d [.write id es sl, .fsync id] pl = (d.applyAll [.write id es sl, .fsync id], none, pl.drop 2) := by
+  rw [runActs_none _ _ h]
   simp only [List.foldl_cons, List.foldl_nil, applyAll_cons, applyAll_nil]
   rw [applyF_clean hc]
   rfl
